@@ -1,5 +1,10 @@
 package engine
 
+import (
+	"fmt"
+	"strings"
+)
+
 // Skolemisation of the negated goal and instantiation of quantified hypotheses on the skolem constants.
 // Both only add logical consequences / equivalent forms, so soundness is unaffected; they make most obligations
 // with quantified invariants decidable by ground reasoning.
@@ -54,6 +59,19 @@ func (u *Unit) instantiate(hyps []*Term, consts []*Term) []*Term {
 				if len(cands) == 0 {
 					return
 				}
+				// candidates that came from a goal variable of the same name first (sk_<name>_...): the cap below
+				// then keeps the instances that line the hypothesis up with the goal
+				if pref := "sk_" + boundBaseName(b) + "_"; len(cands) > 1 {
+					var first, rest []*Term
+					for _, k := range cands {
+						if strings.HasPrefix(k.Name, pref) {
+							first = append(first, k)
+						} else {
+							rest = append(rest, k)
+						}
+					}
+					cands = append(first, rest...)
+				}
 				var next []map[*Term]*Term
 				for _, m := range combos {
 					for _, k := range cands {
@@ -66,8 +84,12 @@ func (u *Unit) instantiate(hyps []*Term, consts []*Term) []*Term {
 					}
 				}
 				combos = next
-				if len(combos) > 16 {
-					combos = combos[:16]
+				cap := 48
+				if u.instCap > cap {
+					cap = u.instCap
+				}
+				if len(combos) > cap {
+					combos = combos[:cap]
 				}
 			}
 			for _, m := range combos {
@@ -212,8 +234,9 @@ func indexTerms(ts []*Term, max int) []*Term {
 	var out []*Term
 	seenT := map[int]bool{}
 	seen := map[int]bool{}
+	nLog := 0
 	add := func(t *Term) {
-		if t.open || t.Sort != SInt || seenT[t.id] || len(out) >= max {
+		if t.open || t.Sort != SInt || seenT[t.id] || len(out) >= max+nLog {
 			return
 		}
 		if t.Op == "sel" && t.Name == "soff" {
@@ -241,6 +264,14 @@ func indexTerms(ts []*Term, max int) []*Term {
 			k := t.Args[1]
 			if !seenT[k.id] && len(out) < 4*max {
 				seenT[k.id] = true
+				out = append(out, k)
+			}
+		}
+		if t.Op == "select" && !t.open && len(t.Args) == 2 && t.Args[1].Sort == SInt && !seenT[t.Args[1].id] && nLog < max {
+			// position in an integer-indexed sequence (the API call log): instance for its prefix-preservation axioms
+			if k := t.Args[1]; !(k.Op == "int") {
+				seenT[k.id] = true
+				nLog++
 				out = append(out, k)
 			}
 		}
@@ -341,4 +372,239 @@ func (u *Unit) ematch(hyps []*Term, ground []*Term) []*Term {
 		walk(out[i])
 	}
 	return out
+}
+
+
+// permCandidates: positions under the permutations introduced by sort models, for the goal's integer skolems. The
+// hypotheses about a sorted slice only apply once a position in the sorted order is named.
+func (u *Unit) permCandidates(sk []*Term) []*Term {
+	n := u.counters["perm"]
+	if n == 0 {
+		return nil
+	}
+	var out []*Term
+	for k := 1; k <= n; k++ {
+		for _, name := range []string{"perm", "perminv"} {
+			f := u.c.Func(fmt.Sprintf("%s!%d", name, k), []*Sort{SInt}, SInt)
+			for _, s := range sk {
+				if s.Sort == SInt {
+					out = append(out, u.c.App(f, s))
+				}
+			}
+		}
+	}
+	u.instCap = 2048
+	return out
+}
+
+// strOrderInstances: ground instances of the strict-total-order axioms of str_lt on the string terms compared in ts.
+func (u *Unit) strOrderInstances(ts []*Term) []*Term {
+	if !u.needStrOrder {
+		return nil
+	}
+	c := u.c
+	f := c.Func("str_lt", []*Sort{SStr, SStr}, SBool)
+	var terms []*Term
+	have := map[int]bool{}
+	seen := map[int]bool{}
+	var walk func(t *Term)
+	walk = func(t *Term) {
+		if seen[t.id] {
+			return
+		}
+		seen[t.id] = true
+		if t.Op == "app" && t.Name == "str_lt" {
+			if len(t.Args) == 2 && t.Args[0].Sort == SStr && t.Args[1].Sort == SStr && !t.open && t.Sort == SBool {
+				for _, a := range t.Args {
+					if !have[a.id] {
+						have[a.id] = true
+						terms = append(terms, a)
+					}
+				}
+			}
+		}
+		for _, a := range t.Args {
+			walk(a)
+		}
+	}
+	for _, t := range ts {
+		walk(t)
+	}
+	if len(terms) > 10 {
+		terms = terms[:10]
+	}
+	lt := func(x, y *Term) *Term { return c.App(f, x, y) }
+	var out []*Term
+	for _, a := range terms {
+		out = append(out, c.Not(lt(a, a)))
+		for _, b := range terms {
+			if a.id < b.id {
+				out = append(out, c.Or(lt(a, b), lt(b, a), c.Eq(a, b)))
+				out = append(out, c.Not(c.And(lt(a, b), lt(b, a))))
+			}
+			for _, d := range terms {
+				if a != b && b != d && a != d {
+					out = append(out, c.Implies(c.And(lt(a, b), lt(b, d)), lt(a, d)))
+				}
+			}
+		}
+	}
+	return out
+}
+
+
+// boundBaseName strips the uniquifying suffix of a bound variable name ("a?3" -> "a").
+func boundBaseName(b *Term) string {
+	n := b.Name
+	if i := strings.IndexAny(n, "?!"); i >= 0 {
+		n = n[:i]
+	}
+	return n
+}
+
+// posSkolem replaces existential quantifiers in positive position of a hypothesis by fresh constants (collected in
+// sk). The result is equisatisfiable with t in any context where t is asserted.
+func (u *Unit) posSkolem(t *Term, sk *[]*Term) *Term {
+	c := u.c
+	if !hasQuant(t) {
+		return t
+	}
+	switch {
+	case t.Op == "exists":
+		m := map[*Term]*Term{}
+		for _, b := range t.Bound {
+			k := c.Fresh("hx_"+boundBaseName(b), b.Sort)
+			m[b] = k
+			*sk = append(*sk, k)
+		}
+		u.substMaps = append(u.substMaps, m)
+		return u.posSkolem(c.Subst(t.Args[0], m), sk)
+	case t.Op == "and":
+		var parts []*Term
+		for _, a := range t.Args {
+			parts = append(parts, u.posSkolem(a, sk))
+		}
+		return c.And(parts...)
+	case t.Op == "or":
+		var parts []*Term
+		for _, a := range t.Args {
+			parts = append(parts, u.posSkolem(a, sk))
+		}
+		return c.Or(parts...)
+	case t.Op == "=>" && !hasQuant(t.Args[0]):
+		return c.Implies(t.Args[0], u.posSkolem(t.Args[1], sk))
+	}
+	return t
+}
+
+// weakenNegExists replaces, in a (negated, skolemised) goal, every sub-formula not(exists x. f) in positive position
+// by the conjunction of not f[x:=k] over the candidate constants k. This only weakens the negated goal, so
+// unsatisfiability of the result still proves the goal.
+func (u *Unit) weakenNegExists(t *Term, cands []*Term) *Term {
+	c := u.c
+	if !hasQuant(t) {
+		return t
+	}
+	switch {
+	case t.Op == "not" && t.Args[0].Op == "exists":
+		q := t.Args[0]
+		bySort := map[*Sort][]*Term{}
+		for _, k := range cands {
+			bySort[k.Sort] = append(bySort[k.Sort], k)
+		}
+		combos := []map[*Term]*Term{{}}
+		for _, b := range q.Bound {
+			var next []map[*Term]*Term
+			for _, m := range combos {
+				for _, k := range bySort[b.Sort] {
+					n := map[*Term]*Term{}
+					for x, y := range m {
+						n[x] = y
+					}
+					n[b] = k
+					next = append(next, n)
+				}
+			}
+			combos = next
+			lim := 64
+			if u.goalInstCap > lim {
+				lim = u.goalInstCap
+			}
+			if len(combos) > lim {
+				combos = combos[:lim]
+			}
+		}
+		var parts []*Term
+		for _, m := range combos {
+			if len(m) != len(q.Bound) {
+				continue
+			}
+			inst := c.Not(c.Subst(q.Args[0], m))
+			if !inst.open {
+				parts = append(parts, u.weakenNegExists(inst, cands))
+			}
+		}
+		return c.And(parts...)
+	case t.Op == "not" && t.Args[0].Op == "or":
+		var parts []*Term
+		for _, a := range t.Args[0].Args {
+			parts = append(parts, u.weakenNegExists(c.Not(a), cands))
+		}
+		return c.And(parts...)
+	case t.Op == "and":
+		var parts []*Term
+		for _, a := range t.Args {
+			parts = append(parts, u.weakenNegExists(a, cands))
+		}
+		return c.And(parts...)
+	case t.Op == "or":
+		var parts []*Term
+		for _, a := range t.Args {
+			parts = append(parts, u.weakenNegExists(a, cands))
+		}
+		return c.Or(parts...)
+	case t.Op == "ite" && t.Sort == SBool && !hasQuant(t.Args[0]):
+		return c.Ite(t.Args[0], u.weakenNegExists(t.Args[1], cands), u.weakenNegExists(t.Args[2], cands))
+	}
+	return t
+}
+
+// alphaKey is a key for quantified formulas that identifies formulas differing only in the names of bound variables.
+func alphaKey(t *Term) string {
+	var b strings.Builder
+	names := map[*Term]string{}
+	var rec func(t *Term)
+	rec = func(t *Term) {
+		if !t.open && t.Op != "forall" && t.Op != "exists" {
+			fmt.Fprintf(&b, "t%d", t.id)
+			return
+		}
+		if t.isVar {
+			if n, ok := names[t]; ok {
+				b.WriteString(n)
+			} else {
+				fmt.Fprintf(&b, "free%d", t.id)
+			}
+			return
+		}
+		if t.Op == "forall" || t.Op == "exists" {
+			b.WriteString("(" + t.Op)
+			for _, v := range t.Bound {
+				names[v] = fmt.Sprintf("#%d:%s", len(names), v.Sort.Name)
+				b.WriteString(" " + names[v])
+			}
+			b.WriteString(" ")
+			rec(t.Args[0])
+			b.WriteString(")")
+			return
+		}
+		b.WriteString("(" + t.Op + ":" + t.Name)
+		for _, a := range t.Args {
+			b.WriteString(" ")
+			rec(a)
+		}
+		b.WriteString(")")
+	}
+	rec(t)
+	return b.String()
 }
